@@ -15,6 +15,25 @@
 using namespace vh;
 using namespace randomx;
 #include "ssx_stream.hpp"
+#include <csignal>
+#include <sys/mman.h>
+#include <unistd.h>
+// pattern cache memory (line k, word j = ((8k+j+1)*K) ^ seed), materialised on first touch: as in rx_ss
+static const uint64_t PATK = 0x9E3779B97F4A7C15ull;
+static uint64_t g_pat; static uint8_t* g_mem; static std::vector<uint8_t*> g_pages; static FILE* g_out;
+static void on_segv(int, siginfo_t* si, void*) {
+	uint8_t* a = (uint8_t*)si->si_addr;
+	if (g_mem && a >= g_mem && a < g_mem + CacheSize) {
+		uint8_t* pg = (uint8_t*)((uintptr_t)a & ~(uintptr_t)4095);
+		mprotect(pg, 4096, PROT_READ | PROT_WRITE);
+		uint64_t* q = (uint64_t*)pg; uint64_t base = (uint64_t)(pg - g_mem) / 8;
+		for (int k = 0; k < 512; ++k) q[k] = ((base + k + 1) * PATK) ^ g_pat;
+		g_pages.push_back(pg);
+		return;
+	}
+	const char* m = "{\"e\":\"Crash\",\"during\":\"rx_ssx\"}\n"; if (g_out) { fflush(g_out); (void)!write(fileno(g_out), m, strlen(m)); } _exit(0);
+}
+static void cache_reset(uint64_t pat) { for (auto p : g_pages) { madvise(p, 4096, MADV_DONTNEED); mprotect(p, 4096, PROT_NONE); } g_pages.clear(); g_pat = pat; }
 int main(int argc, char** argv) {
 	uint64_t seed = strtoull(arg(argc, argv, "--seed", "1"), nullptr, 10);
 	bool thorough = !strcmp(arg(argc, argv, "--tier", "quick"), "thorough");
@@ -72,7 +91,22 @@ int main(int argc, char** argv) {
 			for (size_t b = 0; b < g_next; ++b) { if (b) blocks += ","; blocks += json_limbs(g_blocks[b].data(), 64); }
 			std::string rcps = "[";
 			for (size_t k = 0; k < cache->reciprocalCache.size(); ++k) { if (k) rcps += ","; rcps += json_limbs(&cache->reciprocalCache[k], 8); }
-			Line l; l.str("e", "ssinit").num("sseed", (long long)id.first).num("idx", id.second).num("used", (long long)g_next).raw("blocks", blocks + "]").raw("progs", progs + "]").raw("rcps", rcps + "]"); l.emit(out);
+			// what the cache built by the library computes: dataset items over the pattern memory (the cache's own 256 MiB are swapped out)
+			if (!g_mem) { g_mem = (uint8_t*)mmap(nullptr, CacheSize, PROT_NONE, MAP_PRIVATE | MAP_ANONYMOUS | MAP_NORESERVE, -1, 0);
+				struct sigaction sa; memset(&sa, 0, sizeof sa); sa.sa_sigaction = on_segv; sa.sa_flags = SA_SIGINFO | SA_NODEFER; sigaction(SIGSEGV, &sa, nullptr); g_out = out; }
+			uint8_t* real = cache->memory; cache->memory = g_mem;
+			Rng irng(id.first * 31 + (uint64_t)id.second);
+			std::string items = "[";
+			for (int it = 0; it < 3; ++it) {
+				uint32_t item = it == 0 ? 0u : irng.below(34078716u);
+				uint64_t pat = irng.next(); cache_reset(pat);
+				alignas(64) uint8_t a[64]; initDatasetItem(cache, a, item);
+				if (it) items += ",";
+				std::string w8 = "["; for (int q = 0; q < 8; ++q) { if (q) w8 += ","; w8 += json_limbs(a + 8 * q, 8); } w8 += "]";
+				items += "{\"item\":" + json_limbs(&item, 4) + ",\"pat\":" + json_limbs(&pat, 8) + ",\"interp\":" + w8 + "}";
+			}
+			cache->memory = real;
+			Line l; l.str("e", "ssinit").num("sseed", (long long)id.first).num("idx", id.second).num("used", (long long)g_next).raw("blocks", blocks + "]").raw("progs", progs + "]").raw("rcps", rcps + "]").raw("items", items + "]"); l.emit(out);
 			randomx_release_cache(cache);
 		}
 	}
